@@ -1033,6 +1033,17 @@ func (s *Translator) translateTraversalPatternPartWithoutExpansion(part *Pattern
 		} else {
 			traversalStep.EdgeConstraints = constraints.Edge
 		}
+
+		if !isFirstTraversalStep && constraints.LeftNode.Expression != nil {
+			// Constraints that only need the bindings carried into a continuation step were left unconsumed by the
+			// steps before it - an expansion does not consume a predicate that relates its root and terminal nodes.
+			// They are consumed here as this step's left-node constraints and must be applied, not discarded.
+			if err := RewriteFrameBindings(s.scope, constraints.LeftNode.Expression); err != nil {
+				return err
+			}
+
+			traversalStep.EdgeConstraints.Expression = pgsql.OptionalAnd(constraints.LeftNode.Expression, traversalStep.EdgeConstraints.Expression)
+		}
 		traversalStep.EdgeConstraints.Expression = pgsql.OptionalAnd(
 			traversalStep.EdgeConstraints.Expression,
 			previousRelationshipUniquenessConstraint(s.scope, part, stepIndex, traversalStep),
